@@ -964,7 +964,11 @@ pub fn transcript(seed: u64) -> Vec<(String, String)> {
         t.push((format!("pinned_seed {}", hex(seedb)), format!("{} {} match={}", be(&a), be(&b), be(&a) == *s && be(&b) == *c)));
     }
     let rln = RLN::new(20, Cursor::new("{}".to_string())).expect("rln");
-    let mut seeds: Vec<Vec<u8>> = vec![Vec::new(), vec![0], rng.bytes(7), rng.bytes(32), rng.bytes(300)];
+    let mut seeds: Vec<Vec<u8>> = vec![Vec::new(), vec![0], rng.bytes(7), rng.bytes(32), rng.bytes(300), rng.bytes(1024), rng.bytes(1025), rng.bytes(4097)];
+    // two long seeds that differ only in their last byte
+    let mut twin = seeds[7].clone();
+    *twin.last_mut().unwrap() ^= 1;
+    seeds.push(twin);
     seeds.push(b"A seed phrase example".to_vec());
     for sd in &seeds {
         let (a, b) = rln::protocol::seeded_keygen(sd);
@@ -976,7 +980,30 @@ pub fn transcript(seed: u64) -> Vec<(String, String)> {
         let ib = rln::ffi::Buffer { ptr: sd.as_ptr(), len: sd.len() };
         let ok = rln::ffi::seeded_key_gen(&rln as *const RLN, &ib, &mut ob);
         let f = if ok { unsafe { std::slice::from_raw_parts(ob.ptr, ob.len) }.to_vec() } else { Vec::new() };
-        t.push((format!("seeded_keygen {}", hex(&sd[..sd.len().min(8)])), format!("{} same_across_entry_points={} relations={:?}", hex(&p), p == w && w == f, identity_relations(&p, 2).is_ok())));
+        // the seed reaches RLN::seeded_key_gen through a stream: deliver it in pieces, with EINTR
+        let mut streamed_ok = true;
+        for plan in [
+            crate::io::ReadPlan { chunk: 1, interrupts: vec![], fail_at: None, eof_at: None },
+            crate::io::ReadPlan { chunk: 7, interrupts: vec![0, 2], fail_at: None, eof_at: None },
+            crate::io::ReadPlan { chunk: 1000, interrupts: vec![1], fail_at: None, eof_at: None },
+        ] {
+            let mut ws = Vec::new();
+            let mut rd = crate::io::SimReader::new(sd, plan);
+            if rln.seeded_key_gen(&mut rd, &mut ws).is_err() || ws != p {
+                streamed_ok = false;
+            }
+            let mut ws = Vec::new();
+            let mut rd = crate::io::SimReader::new(sd, crate::io::ReadPlan { chunk: 33, interrupts: vec![0], fail_at: None, eof_at: None });
+            let (a4, b4, c4, d4) = rln::protocol::extended_seeded_keygen(sd);
+            let mut p4 = Vec::new();
+            for x in [a4, b4, c4, d4] {
+                p4.extend_from_slice(&fr_to_le32(&x));
+            }
+            if rln.seeded_extended_key_gen(&mut rd, &mut ws).is_err() || ws != p4 {
+                streamed_ok = false;
+            }
+        }
+        t.push((format!("seeded_keygen {} len={}", hex(&sd[..sd.len().min(8)]), sd.len()), format!("{} same_across_entry_points={} relations={:?}", hex(&p), p == w && w == f && streamed_ok, identity_relations(&p, 2).is_ok())));
         let (a, b, c, d) = rln::protocol::extended_seeded_keygen(sd);
         let mut p = Vec::new();
         for x in [a, b, c, d] {
@@ -987,7 +1014,7 @@ pub fn transcript(seed: u64) -> Vec<(String, String)> {
         let mut ob = rln::ffi::Buffer { ptr: std::ptr::null(), len: 0 };
         let ok = rln::ffi::seeded_extended_key_gen(&rln as *const RLN, &ib, &mut ob);
         let f = if ok { unsafe { std::slice::from_raw_parts(ob.ptr, ob.len) }.to_vec() } else { Vec::new() };
-        t.push((format!("seeded_ext_keygen {}", hex(&sd[..sd.len().min(8)])), format!("{} same_across_entry_points={} relations={:?}", hex(&p), p == w && w == f, identity_relations(&p, 4).is_ok())));
+        t.push((format!("seeded_ext_keygen {} len={}", hex(&sd[..sd.len().min(8)]), sd.len()), format!("{} same_across_entry_points={} relations={:?}", hex(&p), p == w && w == f, identity_relations(&p, 4).is_ok())));
     }
     // unseeded: relations and distinctness (values themselves are not part of the transcript)
     let mut ids: Vec<Vec<u8>> = Vec::new();
